@@ -83,11 +83,15 @@ Theorem C07_all_ambient_reads_modelled : forallb (fun x => read_site_modelled (s
 Proof. vm_compute. reflexivity. Qed.
 Print Assumptions C07_all_ambient_reads_modelled.
 
-(* every function nunavut registers as a filter / test / uses-query (same naming-convention discovery) is free of unaccounted
-   ambient reads, and every file named by include/import/from/extends was found and scanned *)
-Theorem C07_all_template_functions_scanned_pure : forallb (fun x : N * bool => snd x) (t_filters gen_tables) = true.
+(* every bare name, filter and test the templates (and the files they include) reference is a local binding or is known to the
+   inventory DERIVED from the environment (keys stored into globals, the reserved namespaces, Jinja's defaults, language globals,
+   filters/tests registered by naming convention or built into the vendored Jinja, pydsdl instance tests) -- the list of
+   ambient-capable names behind gen_sites is derived from the same inventory (path-typed members of Namespace and of
+   pydsdl.CompositeType, globals assigned from the clock, filters that pickle/dump their argument, ...); and every file named by
+   include/import/from/extends was found and scanned *)
+Theorem C07_all_template_names_classified : forallb (fun x : N * bool => snd x) (t_filters gen_tables) = true.
 Proof. vm_compute. reflexivity. Qed.
-Print Assumptions C07_all_template_functions_scanned_pure.
+Print Assumptions C07_all_template_names_classified.
 
 Theorem C07_all_included_files_scanned : forallb (fun x : lang * bool => snd x) (t_includes gen_tables) = true.
 Proof. vm_compute. reflexivity. Qed.
